@@ -14,6 +14,19 @@ wtxmgr/*.go, nothing is compiled):
     unmined records) and offers every element (no early exit);
   * RemoveUnminedTx is removeConflict.
 
+  * from package chain (always from the source, there is no fallback for
+    this part): the list of EVERY exported error sentinel (RPCErr constants
+    with their index, errors.New variables) and the substring tables that
+    MapRPCErr matches a node's text against (text of every RPCErr,
+    Bitcoind28ErrMap, BtcdErrMap, BtcdErrMapPre2402);
+  * for every one of these sentinels: the branch of publishTransaction that
+    an error which Is it takes (sentinel_table).
+
+The sentinel list is also written to <work>/c20_sentinels.json: the harness
+(cmd/c20) sends every sentinel of it, and the behavioural fallback below
+probes every one of them - a class the source reader refuses is never a class
+the probe does not try.
+
 The model Tx/Publish.v is parameterised by these facts; the theorems of
 Properties/C20.v take their expected values as premises discharged by
 eq_refl, so a source edit that changes one of them makes the proof side fail.
@@ -26,6 +39,34 @@ import vlib
 
 class ExtractError(Exception):
     pass
+
+
+SENTINELS_FILE = "c20_sentinels.json"
+
+
+def extract_chain(repo):
+    """Sentinels and MapRPCErr tables of package chain (go/ast).  No fallback:
+    a declaration that is not understood is a broken obligation."""
+    with vlib.Lock("go"):
+        p = subprocess.run(["go", "run", "./cmd/extract-c20", "-chain", repo], cwd=vlib.HARNESS, env=vlib.GOENV,
+                           stdout=subprocess.PIPE, stderr=subprocess.PIPE, text=True, timeout=280)
+    if p.returncode != 0:
+        raise ExtractError("extract-c20 -chain on %s (rc=%d): %s" % (repo, p.returncode, p.stderr.strip()[-1200:]))
+    ch = json.loads(p.stdout)
+    for rows in ch["tables"].values():
+        for k, v in rows:
+            if not all(32 <= ord(c) < 127 for c in k):
+                raise ExtractError("non-ASCII key %r in a MapRPCErr table" % k)
+    return ch
+
+
+def write_sentinels(ch):
+    os.makedirs(vlib.WORK, exist_ok=True)
+    path = os.path.join(vlib.WORK, SENTINELS_FILE)
+    tmp = "%s.%d.tmp" % (path, os.getpid())
+    with open(tmp, "w") as f:
+        json.dump(ch, f, sort_keys=True)
+    os.replace(tmp, path)
 
 
 def extract(repo):
@@ -54,6 +95,12 @@ def probe_facts(repo):
           error), PublishTransaction is called: is_error = the call returned an error; removes = the transaction is
           not in the unconfirmed store afterwards (UnminedTxHashes).  Two instances per class (spending a confirmed
           coin; chained on an accepted unconfirmed parent) that must agree.
+      sentinel_table   the same for EVERY sentinel of the list regenerated from package chain (c20_sentinels.json),
+          four fresh transactions per sentinel in one wallet: answered with the sentinel itself, with
+          fmt.Errorf("..%w", sentinel) twice, and with the sentinel again; all four must agree.  So a new answer
+          class in publishTransaction (say, keep the transaction and return the error on ErrMempoolMinFeeNotMet),
+          which the source reader refuses, is reported here as that sentinel's action and then fails
+          C20_every_sentinel_by_class - the fallback never stays silent about a class it does not try.
       notify_failure_removes_tx / _is_error   the same with simchain.NotifyFail = 1 (the witness scenario of finding
           S9, corpus/C20 line 1, C20_refuted_notify_failure); four instances (fresh/chained x scripted accept/reject);
           additionally no SendRawTransaction call may happen.
@@ -107,16 +154,42 @@ CLASSES = [("accepted", "accepted", "SendRawTransaction returned no error"),
            ("other", "rejected", "any other error")]
 
 
-def render(res, source_line):
+def cstr(x):
+    return '"' + x.replace('"', '""') + '"'
+
+
+def render_table(name, comment, rows):
+    body = ";\n    ".join("(%s, %s)" % (cstr(k), cstr(v)) for k, v in rows)
+    return "(* %s *)\nDefinition %s : list (string * string) :=\n  [ %s ]." % (comment, name, body)
+
+
+def render(res, ch, source_line):
     rows = []
     for key, name, what in CLASSES:
         a = res["classes"][key]
         rows.append("(* %s: %s *)\nDefinition %s_removes : bool := %s.\nDefinition %s_is_error : bool := %s." % (
             what, a["where"], name, b(a["removes"]), name, b(a["is_error"])))
+    sa = res["sentinel_actions"]
+    missing = [x["name"] for x in ch["sentinels"] if x["name"] not in sa]
+    if missing:
+        raise ExtractError("no action determined for the sentinels %s" % missing)
+    # (comment first: the separator then never ends up inside a comment)
+    srows = ";\n    ".join("(* %s %s; branch: %s *) (%s, (%s, %s))" % (
+        ("RPCErr(%d)" % x["index"]) if x["kind"] == "rpcerr" else "errors.New", x["where"], sa[x["name"]]["where"],
+        cstr(x["name"]), b(sa[x["name"]]["removes"]), b(sa[x["name"]]["is_error"])) for x in ch["sentinels"])
+    t = ch["tables"]
+    tables = "\n\n".join([
+        render_table("map_bitcoind", "BitcoindClient.MapRPCErr: RPCErr(i).Error() for i = 0 .. errSentinel-1, in this order", t["bitcoind"]),
+        render_table("map_bitcoind28", "Bitcoind28ErrMap", t["bitcoind28"]),
+        render_table("map_btcd", "BtcdErrMap (RPCClient.MapRPCErr, NeutrinoClient.MapRPCErr)", t["btcd"]),
+        render_table("map_btcd_pre2402", "BtcdErrMapPre2402 (btcd older than 0.24.2, neutrino)", t["btcd_pre2402"])])
     return """(* GENERATED by lib/extract_c20.py (harness/cmd/extract-c20, go/ast) from the
-   repository's wallet/wallet.go and wtxmgr/{tx,unconfirmed}.go.
+   repository's wallet/wallet.go, wtxmgr/{tx,unconfirmed}.go and chain/*.go.
    Do not edit; bin/extract rewrites it. *)
 (* facts source: %s *)
+From Coq Require Import Strings.String Lists.List.
+Import ListNotations.
+Local Open Scope string_scope.
 
 (* reliablyPublishTransaction records the transaction (addRelevantTx with a nil
    block) before NotifyReceived, and broadcasts (publishTransaction) after it *)
@@ -138,13 +211,35 @@ Definition resend_offers_every_element : bool := %s.
 
 (* RemoveUnminedTx (%s) is `return s.removeConflict(ns, rec)` *)
 Definition remove_unmined_is_remove_conflict : bool := %s.
+
+(* EVERY exported error sentinel of package chain (source: chain/*.go, always
+   read from the source), with the branch of publishTransaction that an error
+   which Is it takes: (name, (calls RemoveUnminedTx, returns an error)) *)
+Definition sentinel_table : list (string * (bool * bool)) :=
+  [ %s ].
+
+(* The substring tables of MapRPCErr (chain/errors.go): (text, sentinel) *)
+%s
 """ % (source_line, b(res["records_before_broadcast"]), res["notify_where"], b(res["notify_failure_removes_tx"]),
        b(res["notify_failure_is_error"]), "\n".join(rows), res["resend_where"],
        b(res["resend_uses_dependency_sort"]), b(res["resend_offers_every_element"]),
-       res["remove_where"], b(res["remove_unmined_is_remove_conflict"]))
+       res["remove_where"], b(res["remove_unmined_is_remove_conflict"]), srows, tables)
 
 
 def main(repo, outdir, write_if_changed):
+    # the sentinels: from the source or not at all.  The list of an earlier
+    # run must not survive a FAILURE; on success it is replaced atomically
+    # (checks of other properties run bin/extract concurrently with a C20
+    # harness that is reading the file).
+    try:
+        ch = extract_chain(repo)
+    except Exception:
+        try:
+            os.remove(os.path.join(vlib.WORK, SENTINELS_FILE))
+        except OSError:
+            pass
+        raise
+    write_sentinels(ch)
     try:
         res = extract(repo)
         source_line = "source (go/ast shape reader harness/cmd/extract-c20)"
@@ -156,4 +251,4 @@ def main(repo, outdir, write_if_changed):
             raise ExtractError("source shape not recognised (%s) AND probing the built code failed (%s)" % (e1, e2))
         source_line = ("probe (source shape not recognised: %s; facts determined by %d wallet scenarios run on the code "
                        "built from the repository, harness/cmd/c20 -probe)" % (why[-300:], res.get("scenarios", 0)))
-    write_if_changed(os.path.join(outdir, "PublishFacts.v"), render(res, source_line))
+    write_if_changed(os.path.join(outdir, "PublishFacts.v"), render(res, ch, source_line))
